@@ -830,7 +830,7 @@ template <class T> struct Xf
         // junk in the out-parameter before the call: a box far away from everything, or the unit cube, or default
         B olds[3] = {B (V (50, 50, 50), V (60, 60, 60)), B (V (0, 0, 0), V (1, 1, 1)), B ()};
         // expected: exact 8-corner bound (fractions over scale^2 for the numerators, w over scale^2)
-        bool   haveExp = false, exactDiv = true, init = false;
+        bool   haveExp = false, exactDiv = true, init = false, anyW0 = false;
         Frac   elo[3], ehi[3];
         if (!inv && kind == 0)
         {
@@ -841,7 +841,7 @@ template <class T> struct Xf
                 for (int j = 0; j < 4; ++j) num[j] = v[0] * mk[0 * 4 + j] + v[1] * mk[1 * 4 + j] + v[2] * mk[2 * 4 + j] + (long long) scale * mk[3 * 4 + j];
                 // coordinate j = num[j] / num[3] (homogeneous divide) for the general operator; affine: w = scale^2 -> num[j]/scale^2
                 long long w = num[3];
-                if (w == 0) { exactDiv = false; continue; }
+                if (w == 0) { exactDiv = false; anyW0 = true; continue; }
                 // is the floating-point division exact?  w (over scale^2) must be +-2^k
                 long long aw = w < 0 ? -w : w;
                 if (aw & (aw - 1)) exactDiv = false; // scale is a power of two, so w/scale^2 is a power of two iff aw is
@@ -856,6 +856,16 @@ template <class T> struct Xf
             haveExp = init && exactDiv;
         }
         int exact = (kind != 0 || inv || affine || exactDiv) ? 1 : 0;
+        // the naive eight-corner loop on a FRESH box with the real `Vec3 * Matrix44` and `extendBy`: what the projective path must
+        // return bit for bit (also when the divisions round)
+        bool haveS8 = false;
+        B    s8;
+        if (!inv && kind == 0 && !affine && !anyW0)
+        {
+            for (int c = 0; c < 8; ++c)
+                s8.extendBy (V ((c & 4) ? b.max.x : b.min.x, (c & 2) ? b.max.y : b.min.y, (c & 1) ? b.max.z : b.min.z) * m);
+            haveS8 = s8.min == s8.min && s8.max == s8.max; // no NaN
+        }
         B   outs[4];
         for (int oi = 0; oi < 3; ++oi)
         {
@@ -881,6 +891,9 @@ template <class T> struct Xf
                 if (kind == 2 && !r0.isInfinite ()) fail ("transform:infinite-input-not-infinite", ctx + " -> " + boxS (r0));
                 if (canAffine && inv && !r2.isEmpty ()) fail ("affineTransform:empty-input-not-empty", ctx);
                 if (canAffine && kind == 2 && !r2.isInfinite ()) fail ("affineTransform:infinite-input-not-infinite", ctx);
+                if (haveS8 && !(r0.min == s8.min && r0.max == s8.max))
+                    fail ("transform:projective-not-8-corner-bound", ctx + " value form -> " + boxS (r0) + " eight-corner loop -> " + boxS (s8));
+                if (haveS8) ++t.nontrivial;
                 if (haveExp && exact)
                 {
                     ++t.nontrivial;
@@ -908,7 +921,13 @@ template <class T> struct Xf
                 }
             }
             // the overloads must agree whatever `result` held before
-            if (!sameSet (r1, r0))
+            if (haveS8)
+            {
+                // projective path: each overload separately against the fresh eight-corner loop
+                if (!(r1.min == s8.min && r1.max == s8.max))
+                    fail ("transform-outparam:projective-extends-old-result", ctx + " eight-corner loop -> " + boxS (s8) + " out-parameter form -> " + boxS (r1));
+            }
+            else if (!sameSet (r1, r0))
             {
                 std::string key = inv ? "transform-outparam:empty-input-leaves-result" : kind == 2 ? "transform-outparam:infinite-input-leaves-result" : affine ? "transform-outparam:affine-differs" : "transform-outparam:projective-extends-old-result";
                 fail (key, ctx + " value-form -> " + boxS (r0) + " out-parameter form -> " + boxS (r1));
@@ -943,9 +962,45 @@ template <class T> struct Xf
                 boxS (r3).c_str (), boxS (v3).c_str ());
     }
 
+    // DETERMINISTIC, every tier: for three base matrices ALL 16 zero / non-zero patterns of the last column
+    // (m[0][3], m[1][3], m[2][3] in {0, c}, m[3][3] in {1, k}) x c in {1, -1/2} x k in {2, 1/2} x boxes (ordinary, off-centre, flat, point,
+    // inverted, makeEmpty, makeInfinite) x all four overloads x three old `result`s.  Each term of the affine test
+    // `m[0][3] == 0 && m[1][3] == 0 && m[2][3] == 0 && m[3][3] == 1` is thus the ONLY failing term for some matrix.
+    static void lastColumnSweep ()
+    {
+        Tally           t;
+        std::mt19937_64 g (12345);
+        const int       sc = 8; // values are multiples of 1/8
+        // rows 0..3, columns 0..2 (the last column is filled in below)
+        static const long long base[3][12] = {
+            {8, 0, 0, 0, 8, 0, 0, 0, 8, 0, 0, 0},                  // identity
+            {0, 8, 0, -8, 0, 0, 0, 0, 8, 8, -16, 24},              // rotation by 90 degrees about z, translation (1,-2,3)
+            {16, -4, 8, 4, 12, -8, -8, 0, 20, -12, 8, 4}};         // general affine
+        static const long long boxes[5][6] = {{0, 0, 0, 8, 8, 8}, {-8, 0, 8, 16, 8, 24}, {0, -8, 8, 16, 8, 8} /*flat*/, {8, 0, 8, 8, 0, 8} /*point*/,
+                                              {8, 0, 0, 0, 8, 8} /*inverted*/};
+        static const long long cs[2] = {8, -4}, ks[2] = {16, 4};
+        for (int bi = 0; bi < 3; ++bi)
+            for (int pat = 0; pat < 16; ++pat)
+                for (long long c : cs)
+                    for (long long k : ks)
+                    {
+                        long long mk[16];
+                        for (int i = 0; i < 4; ++i) for (int j = 0; j < 3; ++j) mk[i * 4 + j] = base[bi][i * 3 + j];
+                        mk[3] = (pat & 1) ? c : 0; mk[7] = (pat & 2) ? c : 0; mk[11] = (pat & 4) ? c : 0; mk[15] = (pat & 8) ? k : sc;
+                        for (int bx = 0; bx < 7; ++bx)
+                        {
+                            long long bk[6] = {0, 0, 0, 0, 0, 0};
+                            if (bx < 5) for (int i = 0; i < 6; ++i) bk[i] = boxes[bx][i];
+                            one (bk, mk, sc, bx == 5 ? 1 : bx == 6 ? 2 : 0, t, g);
+                        }
+                    }
+        summary (std::string ("transform-last-column-sweep:") + tg (), t);
+    }
+
     static void run (unsigned long seed, long n)
     {
         witnesses ();
+        lastColumnSweep ();
         std::mt19937_64 g (seed * 2654435761ul + sizeof (T));
         Tally           t;
         auto            I = [&] (int lo, int hi) { return (long long) lo + (long long) (g () % (unsigned long long) (hi - lo + 1)); };
@@ -965,7 +1020,7 @@ template <class T> struct Xf
             // last column
             if (sel <= 3) { mk[3] = mk[7] = mk[11] = 0; mk[15] = scale; }                         // affine
             else if (sel == 4) { mk[3] = mk[7] = mk[11] = 0; long long w[] = {2, 4, -2, 8}; mk[15] = scale * w[g () % 4]; } // w = const != 1: exact
-            else { mk[3] = I (-1, 1) * scale / (scale == 1 ? 1 : 4); mk[7] = I (-1, 1) * scale / (scale == 1 ? 1 : 4); mk[11] = 0; mk[15] = (scale == 1 ? I (1, 3) : scale * I (1, 3)); if (mk[3] == 0 && mk[7] == 0 && mk[15] == scale) mk[15] = 2 * scale; } // general projective
+            else { mk[3] = I (-1, 1) * scale / (scale == 1 ? 1 : 4); mk[7] = I (-1, 1) * scale / (scale == 1 ? 1 : 4); mk[11] = I (-1, 1) * scale / (scale == 1 ? 1 : 4); mk[15] = (scale == 1 ? I (1, 3) : scale * I (1, 3)); if (mk[3] == 0 && mk[7] == 0 && mk[11] == 0 && mk[15] == scale) mk[15] = 2 * scale; } // general projective
             one (bk, mk, scale, kind, t, g);
         }
         summary (std::string ("transform-lattice:") + tg (), t);
